@@ -165,24 +165,36 @@ def run(chk, prog):
     n2 = 0
     seen = set()
     ob_ids = {y["id"] for y in A.walk(mm.output_block())}
-    for asg, g in mm.case_split():
-        fr = F.Freshness(mm, g)
-        fr.run()
-        for bid, i, n, e in fr.events:
-            if n["id"] not in loop_ids or n["id"] in ob_ids:
-                continue
-            if (e["var"], e["method"]) not in (("wkm", "update"), ("grid_t1", "integrate"), ("grid_t1", "integrateAndNormalize")):
-                continue
-            st, pos = fr.before(n)
-            ok = ("grid_t1", "_projection", 0) in st
-            n2 += 1
-            key = "%s.%s:xprojection-at-loop-head:%s" % (e["var"], e["method"], ok)
-            if key in seen:
-                continue
-            seen.add(key)
-            chk.check(ok, "R2", A.loc(mainf, n), "%s.%s() at the loop head reads an X projection that is fresh on every path (first iteration after any kind of start, and every later one)"
-                      % (e["var"], e["method"]), key)
-    chk.floor("R2-loop-head-reads", n2, 16)
+    def loop_head_reads(splits):
+        """{(reader, site): fresh on every path of every case} and the number of (case, reader) pairs looked at"""
+        res, cnt = {}, 0
+        for asg, g in splits:
+            fr = F.Freshness(mm, g)
+            fr.run()
+            for bid, i, n, e in fr.events:
+                if n["id"] not in loop_ids or n["id"] in ob_ids:
+                    continue
+                if (e["var"], e["method"]) not in (("wkm", "update"), ("grid_t1", "integrateAndNormalize")):      # (integrate() alone feeds only the log and the records)
+                    continue
+                st, pos = fr.before(n)
+                cnt += 1
+                k_ = (e["var"], e["method"], n["id"])
+                res[k_] = res.get(k_, True) and (("grid_t1", "_projection", 0) in st)
+        return res, cnt
+    res2, n2 = loop_head_reads(mm.case_split())
+    if not all(res2.values()):
+        # a reader that looks stale when only the null/non-null cases are told apart may sit under the same sign condition as the refresh
+        # (`if (r > 0) refresh(); ... if (r > 0) read();`): decide again with the sign of main's const integers fixed per case
+        res2, _ = loop_head_reads(mm.case_split(refine=True))
+    byid = {y["id"]: y for y in A.walk(loop)}
+    for (var_, meth_, nid_), ok in sorted(res2.items()):
+        key = "%s.%s:xprojection-at-loop-head:%s" % (var_, meth_, ok)
+        if key in seen:
+            continue
+        seen.add(key)
+        chk.check(ok, "R2", A.loc(mainf, byid[nid_]), "%s.%s() at the loop head reads an X projection that is fresh on every path (first iteration after any kind of start, and every later one)"
+                  % (var_, meth_), key)
+    chk.floor("R2-loop-head-reads", n2, 8)
     pre = [x for x in A.walk(mainf["body"]) if x.get("k") == "CXXMemberCallExpr" and "grid_t1" in A.show(A.call_object(x)) and x["line"] < loop["line"] and
            (x.get("callee") or "").split("::")[-1] in ("updateXProjection", "integrate", "updateYProjection", "variance")]
     idxm = mm.idx
